@@ -418,3 +418,35 @@ Theorem C09_reader_auto_first_refuted :
     Some ([10; 0; 0; 0], next_rec).
 Proof. exact auto_first_reader_refuted. Qed.
 Print Assumptions C09_reader_auto_first_refuted.
+
+(* a call that is closed without a return value (exception unwinding, pthread_exit, --estimate-return): the `more`
+   bit of the EXIT record is set iff a return value was actually captured *)
+Theorem C09_exit_more_iff_captured : forall bg fill inp specs has_ret captured t depth addr,
+  depth < 1024 -> addr < 2 ^ 48 ->
+  let w := of_le (takeN 8 (dropN 8 (exit_rec bg fill inp specs has_ret captured t depth addr))) in
+  (w / 4) mod 2 = 1 <-> (has_ret = true /\ captured = true /\ payload (run fill inp true specs) <> None).
+Proof. exact exit_more_iff_captured. Qed.
+Print Assumptions C09_exit_more_iff_captured.
+
+(* such a call is decoded without a return value, and the record behind it is found where it starts *)
+Theorem C09_abandoned_exit_decodes : forall k specs_of bg fill inp has_ret t depth addr rest,
+  t < 2 ^ 64 -> depth < 1024 -> addr < 2 ^ 48 ->
+  decode_stream (S k) specs_of (exit_rec bg fill inp (specs_of addr) has_ret false t depth addr ++ rest) =
+  {| d_time := t; d_type := UFTRACE_EXIT; d_depth := depth; d_addr := addr; d_args := None |}
+    :: decode_stream k specs_of rest.
+Proof. exact abandoned_exit_decodes. Qed.
+Print Assumptions C09_abandoned_exit_decodes.
+
+(* a writer that keeps the return value flag on such a frame sends the stale argument buffer: the throwing
+   `check(3, 100)` is shown as ` = 3;` and the next record is lost *)
+Theorem C09_stale_retval_refuted :
+  let stale := payload (run 0 chk_inp false chk_specs) in
+  stale = Some (le_bytes 8 3 ++ le_bytes 8 100) /\
+  decode_stream 2 (fun _ => chk_specs) (exit_rec 0 0 chk_inp chk_specs true false 1000 1 0x401000 ++ next_rec) =
+    [ {| d_time := 1000; d_type := UFTRACE_EXIT; d_depth := 1; d_addr := 0x401000; d_args := None |};
+      {| d_time := 2000; d_type := UFTRACE_ENTRY; d_depth := 1; d_addr := 0x401000; d_args := None |} ] /\
+  decode_stream 2 (fun _ => chk_specs) (enc_rec 0 1000 UFTRACE_EXIT 1 0x401000 stale ++ next_rec) =
+    [ {| d_time := 1000; d_type := UFTRACE_EXIT; d_depth := 1; d_addr := 0x401000; d_args := Some (le_bytes 8 3) |} ] /\
+  show_ret [] chk_specs (Some (le_bytes 8 3)) = [32; 61; 32; 51; 59].
+Proof. exact stale_retval_refuted. Qed.
+Print Assumptions C09_stale_retval_refuted.
